@@ -20,6 +20,7 @@ import (
 	"time"
 
 	"github.com/golang-jwt/jwt/v4"
+	"github.com/gorilla/websocket"
 	"github.com/practable/relay/internal/access"
 	"github.com/practable/relay/internal/crossbar"
 	"github.com/practable/relay/internal/deny"
@@ -588,7 +589,7 @@ func main() {
 			cases = cases[:i]
 			break
 		}
-		if cases[i].Kind != "realtime" {
+		if !strings.HasPrefix(cases[i].Kind, "realtime") {
 			run(&cases[i], i)
 		}
 	}
@@ -597,6 +598,8 @@ func main() {
 	if a.Replay == "" && hung == 0 {
 		jwt.TimeFunc = time.Now
 		cases = append(cases, realtime())
+		http.DefaultServeMux = http.NewServeMux() // the crossbar registers "/" on the default mux: one relay per mux
+		cases = append(cases, realtimeConnections())
 	}
 
 	coq := make([]string, len(cases))
@@ -680,5 +683,86 @@ func realtime() Case {
 	add(Op{K: "HListDeny"}, lst("deny"))
 	add(Op{K: "HListAllow"}, lst("allow"))
 	_ = url.QueryEscape
+	rl.Stop()
+	return c
+}
+
+// realtimeConnections: the lists while websocket connections of the bookings come and go on a real relay. A connection
+// whose short token expires, one that the client closes, one that is refused: none of them is a deny, an allow or a
+// prune, so for the register they are no operation at all. Booking 4 has a connection on a 2 s token while its allow
+// entry has meanwhile been given a far expiry by an admin; booking 5 is denied and a connection attempt with an old
+// code is refused; booking 6's client leaves by itself.
+func realtimeConnections() Case {
+	rl := lib.StartRelay(lib.RelayOpts{PruneEvery: 300 * time.Millisecond})
+	adm := rl.AdminBearer("relay:admin")
+	for time.Now().Nanosecond() > 100e6 {
+		time.Sleep(10 * time.Millisecond)
+	}
+	t0 := time.Now().Unix()
+	c := Case{T0: t0, Kind: "realtime-connections"}
+	add := func(o Op, out Out) { c.Ops = append(c.Ops, o); c.Outs = append(c.Outs, out) }
+	lst := func(which string) Out {
+		l, st := rl.BidList(which, adm)
+		if st != 200 {
+			return Out{K: "S", S: st}
+		}
+		return Out{K: "L", L: intern(l)}
+	}
+	session := func(id int, exp int64) (string, int) {
+		topic := fmt.Sprintf("c10-conn-%d", id)
+		cl := rl.Claims(topic, idString(uint64(id)), []string{"read", "write"}, t0-1, t0-1, exp)
+		st, uri, _ := rl.Session(topic, lib.Sign(cl, rl.Secret))
+		return uri, st
+	}
+	var conns []*websocket.Conn
+	defer func() {
+		for _, w := range conns {
+			w.Close()
+		}
+	}()
+	dial := func(uri string) *websocket.Conn {
+		w, _, err := lib.Dial(uri, nil)
+		if err != nil {
+			return nil
+		}
+		conns = append(conns, w)
+		go func() {
+			for {
+				if _, _, e := w.ReadMessage(); e != nil {
+					return
+				}
+			}
+		}()
+		return w
+	}
+	u4, st4 := session(4, t0+2)
+	add(Op{K: "HSession", ID: 4, E: t0 + 2}, Out{K: "S", S: class(st4)})
+	dial(u4)
+	u4b, st4b := session(4, t0+900) // a second, longer token of the same booking
+	add(Op{K: "HSession", ID: 4, E: t0 + 900}, Out{K: "S", S: class(st4b)})
+	dial(u4b)
+	add(Op{K: "HAllow", ID: 4, E: t0 + 1000}, Out{K: "S", S: class(status(rl.Allow(idString(4), t0+1000, adm)))})
+	u5, st5 := session(5, t0+900)
+	add(Op{K: "HSession", ID: 5, E: t0 + 900}, Out{K: "S", S: class(st5)})
+	add(Op{K: "HDeny", ID: 5, E: t0 + 900}, Out{K: "S", S: class(status(rl.Deny(idString(5), t0+900, adm)))})
+	dial(u5) // refused: the code died with the deny
+	u6, st6 := session(6, t0+900)
+	add(Op{K: "HSession", ID: 6, E: t0 + 900}, Out{K: "S", S: class(st6)})
+	if w := dial(u6); w != nil {
+		time.Sleep(100 * time.Millisecond)
+		w.Close()
+	}
+	add(Op{K: "HListDeny"}, lst("deny"))
+	add(Op{K: "HListAllow"}, lst("allow"))
+	// past the short token's expiry (closed by the relay at t0+2 .. t0+3) and several prune ticks later
+	time.Sleep(time.Until(time.Unix(t0+3, 600e6)))
+	add(Op{K: "OSetNow", E: t0 + 3}, Out{K: "U"})
+	add(Op{K: "OPrune"}, Out{K: "U"})
+	add(Op{K: "HListDeny"}, lst("deny"))
+	add(Op{K: "HListAllow"}, lst("allow"))
+	if time.Now().After(time.Unix(t0+3, 950e6)) {
+		c.Kind = "realtime-discarded" // stalled across a second boundary: not judged
+		c.Ops, c.Outs = c.Ops[:1], c.Outs[:1]
+	}
 	return c
 }
